@@ -417,10 +417,15 @@ def structtag_values(draw, t):
             v[name] = draw(structtag_values(mt))
         else:
             v[name] = draw(values(mt))
+    consistent = draw(st.booleans())
     for name, (boff, bit) in t["bits"].items():
         if name in private:
             continue
         v[name] = draw(st.booleans())
+        if not consistent:
+            # the two views of one bit disagree (a decoded value in which the caller changed the BOOL member only): the BOOL member is
+            # what ends up in the host bit
+            continue
         for mname, mt, moff in t["members"]:
             if mname in v and mt["k"] in ("SINT", "INT", "DINT", "USINT", "UINT", "UDINT") and moff <= boff < moff + type_size(mt):
                 # a BOOL aliasing a visible integer member: keep the two views of the same bit consistent
